@@ -130,6 +130,92 @@ theorem C15_cmpp30_connect_exchange (md5 : Bytes → Bytes) (account secret : By
   have h3 := hf "Timestamp" (by simp)
   simp [Rec.str, Rec.num, h1, h2, h3, hacc, hts, hauth]
 
+/-- the same statement for any login PDU and any digest-input function: if the three fields survive
+    the wire (`survivesCheck`, decided on the regenerated layouts), the peer's recomputation from the
+    *decoded* account and timestamp equals the authenticator it received -/
+theorem login_exchange (p : PduDesc) (hp : p ∈ Gen.allPdus) (hx : exceptions.contains p.name = false)
+    (accF authF tsF : String) (hF : survivesCheck p [accF, authF, tsF] = true)
+    (md5 : Bytes → Bytes) (input : Bytes → Bytes → Nat → Bytes) (account secret : Bytes) (ts : Nat) (r : Rec)
+    (hacc : r.get? accF = some (.str account))
+    (hts : r.get? tsF = some (.num ts))
+    (hauth : r.get? authF = some (.str (md5 (input account secret ts)))) :
+    ∃ lf its, p.items = some (lf, its) ∧
+      ((∀ it ∈ its, it.Fits (norm its r)) → (itemsBytes (norm its r) its).length + 4 < 2 ^ 32 →
+       ∃ bs dec r', p.encode r = .ok (bs, r') ∧ p.decode bs = .ok dec ∧
+         dec.str authF = md5 (input (dec.str accF) secret (dec.num tsF))) := by
+  obtain ⟨lf, its, hits, h⟩ := fields_survive p hp hx [accF, authF, tsF] hF
+  refine ⟨lf, its, hits, fun hfit hsize => ?_⟩
+  obtain ⟨bs, dec, r', henc, hdec, hf⟩ := h r hfit hsize
+  refine ⟨bs, dec, r', henc, hdec, ?_⟩
+  have h1 := hf accF (by simp)
+  have h2 := hf authF (by simp)
+  have h3 := hf tsF (by simp)
+  simp [Rec.str, Rec.num, h1, h2, h3, hacc, hts, hauth]
+
+/-- **CMPP 2.0 connect** -/
+theorem C15_cmpp20_connect_exchange (md5 : Bytes → Bytes) (account secret : Bytes) (ts : Nat) (r : Rec)
+    (hacc : r.get? "SourceAddr" = some (.str account))
+    (hts : r.get? "Timestamp" = some (.num ts))
+    (hauth : r.get? "AuthenticatorSource" = some (.str (md5 (cmppAuthInput account secret ts)))) :
+    ∃ lf its, Gen.cmpp20_PduConnect.items = some (lf, its) ∧
+      ((∀ it ∈ its, it.Fits (norm its r)) → (itemsBytes (norm its r) its).length + 4 < 2 ^ 32 →
+       ∃ bs dec r', Gen.cmpp20_PduConnect.encode r = .ok (bs, r') ∧ Gen.cmpp20_PduConnect.decode bs = .ok dec ∧
+         dec.str "AuthenticatorSource"
+           = md5 (cmppAuthInput (dec.str "SourceAddr") secret (dec.num "Timestamp"))) :=
+  login_exchange Gen.cmpp20_PduConnect (by simp [Gen.allPdus]) (by decide) _ _ _ (by decide)
+    md5 cmppAuthInput account secret ts r hacc hts hauth
+
+/-- **SMGP 3.0 login** (7 zero octets) -/
+theorem C15_smgp30_login_exchange (md5 : Bytes → Bytes) (account secret : Bytes) (ts : Nat) (r : Rec)
+    (hacc : r.get? "ClientID" = some (.str account))
+    (hts : r.get? "Timestamp" = some (.num ts))
+    (hauth : r.get? "AuthenticatorClient" = some (.str (md5 (smgpAuthInput account secret ts)))) :
+    ∃ lf its, Gen.smgp30_Login.items = some (lf, its) ∧
+      ((∀ it ∈ its, it.Fits (norm its r)) → (itemsBytes (norm its r) its).length + 4 < 2 ^ 32 →
+       ∃ bs dec r', Gen.smgp30_Login.encode r = .ok (bs, r') ∧ Gen.smgp30_Login.decode bs = .ok dec ∧
+         dec.str "AuthenticatorClient"
+           = md5 (smgpAuthInput (dec.str "ClientID") secret (dec.num "Timestamp"))) :=
+  login_exchange Gen.smgp30_Login (by simp [Gen.allPdus]) (by decide) _ _ _ (by decide)
+    md5 smgpAuthInput account secret ts r hacc hts hauth
+
+/-- the response direction: `AuthenticatorISMG = md5(status octets ++ request authenticator ++ secret)`; the
+    client, recomputing from the *decoded* status with the authenticator it sent, obtains what it received.
+    `statusOctets` is the big-endian rendering of the status the protocol version uses (1 octet in
+    CMPP 2.0, 4 in CMPP 3.0) — any function of the decoded status value. -/
+theorem resp_exchange (p : PduDesc) (hp : p ∈ Gen.allPdus) (hx : exceptions.contains p.name = false)
+    (hF : survivesCheck p ["Status", "AuthenticatorISMG"] = true)
+    (md5 : Bytes → Bytes) (statusOctets : Nat → Bytes) (status : Nat) (reqAuth secret : Bytes) (r : Rec)
+    (hst : r.get? "Status" = some (.num status))
+    (hauth : r.get? "AuthenticatorISMG" = some (.str (md5 (cmppRespAuthInput (statusOctets status) reqAuth secret)))) :
+    ∃ lf its, p.items = some (lf, its) ∧
+      ((∀ it ∈ its, it.Fits (norm its r)) → (itemsBytes (norm its r) its).length + 4 < 2 ^ 32 →
+       ∃ bs dec r', p.encode r = .ok (bs, r') ∧ p.decode bs = .ok dec ∧
+         dec.str "AuthenticatorISMG" = md5 (cmppRespAuthInput (statusOctets (dec.num "Status")) reqAuth secret)) := by
+  obtain ⟨lf, its, hits, h⟩ := fields_survive p hp hx ["Status", "AuthenticatorISMG"] hF
+  refine ⟨lf, its, hits, fun hfit hsize => ?_⟩
+  obtain ⟨bs, dec, r', henc, hdec, hf⟩ := h r hfit hsize
+  refine ⟨bs, dec, r', henc, hdec, ?_⟩
+  have h1 := hf "Status" (by simp)
+  have h2 := hf "AuthenticatorISMG" (by simp)
+  simp [Rec.str, Rec.num, h1, h2, hst, hauth]
+
+theorem C15_cmpp20_connect_resp_exchange (md5 : Bytes → Bytes) (statusOctets : Nat → Bytes) (status : Nat)
+    (reqAuth secret : Bytes) (r : Rec) (hst : r.get? "Status" = some (.num status))
+    (hauth : r.get? "AuthenticatorISMG" = some (.str (md5 (cmppRespAuthInput (statusOctets status) reqAuth secret)))) :
+    ∃ lf its, Gen.cmpp20_PduConnectResp.items = some (lf, its) ∧
+      ((∀ it ∈ its, it.Fits (norm its r)) → (itemsBytes (norm its r) its).length + 4 < 2 ^ 32 →
+       ∃ bs dec r', Gen.cmpp20_PduConnectResp.encode r = .ok (bs, r') ∧ Gen.cmpp20_PduConnectResp.decode bs = .ok dec ∧
+         dec.str "AuthenticatorISMG" = md5 (cmppRespAuthInput (statusOctets (dec.num "Status")) reqAuth secret)) :=
+  resp_exchange Gen.cmpp20_PduConnectResp (by simp [Gen.allPdus]) (by decide) (by decide) md5 statusOctets status reqAuth secret r hst hauth
+theorem C15_cmpp30_connect_resp_exchange (md5 : Bytes → Bytes) (statusOctets : Nat → Bytes) (status : Nat)
+    (reqAuth secret : Bytes) (r : Rec) (hst : r.get? "Status" = some (.num status))
+    (hauth : r.get? "AuthenticatorISMG" = some (.str (md5 (cmppRespAuthInput (statusOctets status) reqAuth secret)))) :
+    ∃ lf its, Gen.cmpp30_ConnectResp.items = some (lf, its) ∧
+      ((∀ it ∈ its, it.Fits (norm its r)) → (itemsBytes (norm its r) its).length + 4 < 2 ^ 32 →
+       ∃ bs dec r', Gen.cmpp30_ConnectResp.encode r = .ok (bs, r') ∧ Gen.cmpp30_ConnectResp.decode bs = .ok dec ∧
+         dec.str "AuthenticatorISMG" = md5 (cmppRespAuthInput (statusOctets (dec.num "Status")) reqAuth secret)) :=
+  resp_exchange Gen.cmpp30_ConnectResp (by simp [Gen.allPdus]) (by decide) (by decide) md5 statusOctets status reqAuth secret r hst hauth
+
 /-- the same exchange for every login PDU of the three protocols: all the fields the peer
     recomputes from come back exactly as sent (so the CMPP 3.0 argument applies verbatim) -/
 theorem C15_login_fields_survive (nf : String × List String) (hnf : nf ∈ loginFields) :
@@ -161,6 +247,10 @@ open SmsVerif.C15
 #print axioms C15_ts10_digits
 #print axioms C15_digest_input_layout
 #print axioms C15_cmpp30_connect_exchange
+#print axioms C15_cmpp20_connect_exchange
+#print axioms C15_smgp30_login_exchange
+#print axioms C15_cmpp20_connect_resp_exchange
+#print axioms C15_cmpp30_connect_resp_exchange
 #print axioms C15_login_fields_survive
 #print axioms C15_slots_raw
 end
